@@ -154,6 +154,12 @@ def replay(cases, name, seeds=(None,), render_opts=None, check_ast=True):
                 return res
         so, se, code = sv.run_seed(plain, fname, d)
         exp = sv.expected(outcome, fname, pl.loc)
+        cr = sv.crashed(se, code)
+        if cr:
+            res.update(kind="crash", detail=cr,
+                       actual={"stdout": so.decode(errors="replace")[-2000:],
+                               "stderr": se.decode(errors="replace")[-2000:], "exit": code})
+            return res
         form = sv.stderr_form(se, fname, code)
         if form:
             res.update(kind="stderr-form", detail=form,
